@@ -316,7 +316,8 @@ func genExchange(t *rapid.T, ch Chain, terminal string) Case {
 	p.Body.Compressible = rapid.Bool().Draw(t, "compressible")
 	p.Body.Salt = byte(rapid.IntRange(0, 255).Draw(t, "salt"))
 	if !okEnc {
-		p.Body.Encoding = rapid.SampledFrom([]string{"br", "gzip"}).Draw(t, "backend-ce")
+		// any content coding makes the entity "already encoded": the registered ones, rarer ones, lists, odd case
+		p.Body.Encoding = rapid.SampledFrom([]string{"br", "gzip", "br", "gzip", "deflate", "zstd", "aes128gcm", "dcb", "exi", "pack200-gzip", "bzip2", "x-custom-coding", "BR", "deflate, br"}).Draw(t, "backend-ce")
 	}
 	if c.bodiless() {
 		n = 0
